@@ -18,7 +18,7 @@ RULE = (
     "overlay matrix of the reference model (a schedule submitted at t overwrites all stations "
     "for [t,t+len), omitted stations 0, empty = no-op, uncovered = 0) must equal the final "
     "pilot_signals on its whole width (and pilot_signals_as_df under the right column names), and "
-    "EVSE.current_pilot read after the charging update of EVERY period (post_charging_update "
+    "EVSE.current_pilot read after the charging update of EVERY period (update_pilots "
     "override) must equal the model column of that period. Metamorphic: reversing the entry order "
     "of every mapping gives a bit-identical matrix. Malformed variant (unknown station id / rows of "
     "unequal length returned once at a generated scheduler call): run() must raise KeyError / "
@@ -109,8 +109,9 @@ def prop(spec, rec):
     require(np.array_equal(df.to_numpy().T, P), "df_content", "pilot_signals_as_df differs from pilot_signals")
 
     # what every EVSE was actually told in every period
-    require(len(h.net.pilot_trace) == m.end, "one_update_per_period", lambda: "%d updates" % len(h.net.pilot_trace))
-    for t, col in enumerate(h.net.pilot_trace):
+    require(sorted(h.net.pilot_trace) == list(range(m.end)), "one_update_per_period", lambda: "pilots applied in periods %r" % sorted(h.net.pilot_trace))
+    for t in range(m.end):
+        col = h.net.pilot_trace[t]
         for i, sid in enumerate(m.station_ids):
             require(col[sid] == M[i, t], "applied_pilot_equals_schedule", lambda: "period %d station %s was sent %r A, the schedules say %r A" % (t, sid, col[sid], M[i, t]))
     if sim.schedule_history is not None:
